@@ -2,7 +2,11 @@
 //
 // A case is a whole history over a small project:
 //
-//	T<k> ev ev ...     ev = w.<file>.<v> | d.<file> | c | f.<Task> | r.<Tasks>.<force>.<crash>
+//	T<k> ev ev ...     ev = w.<file>.<v> | d.<file> | c | f.<Task> | x.<Task>.<file>.<v> | r.<Tasks>.<force>.<crash>
+//	x.<Task>.<file>.<v>  toggles a SIDE EFFECT of the task's command (in-process mode): whenever the command runs to its
+//	          end it overwrites <file> (if it exists) with content <v> — a formatter, a generator.  A task is hashed when
+//	          its turn comes, so the inputs it is judged on (INP) are those it SAW then: the tree after the effects of
+//	          the commands that ran before it in this invocation (reference snapshots taken after every Runner call).
 //	crash = - | K<j> (the scripted Runner panics in its j-th call: kill -9 during a command)
 //	          | P<k> (panic at the k-th cache.VerifPoint) | P<k>t<n> (… after writing only the first n bytes: torn write)
 //	T<k>b ev ev ...    the same history in BINARY MODE (see below); the oracle ignores the first word of a case, so
@@ -118,6 +122,8 @@ var templates = []template{
 	{[]taskDef{{"A", []string{"**/a"}, nil}}, []int{0, 4}},
 	// 8: a glob-only task whose glob can come to match nothing (src/x is removed in the focused family)
 	{[]taskDef{{"A", []string{"src/*"}, nil}, {"B", []string{"b"}, []string{"A"}}}, []int{2, 3, 1}},
+	// 9: two tasks with the very same dependency list, the first of which may rewrite those files (a formatter, then a build)
+	{[]taskDef{{"A", []string{"src/*"}, nil}, {"B", []string{"src/*"}, []string{"A"}}}, []int{2, 3}},
 }
 
 func (t template) text() string {
@@ -327,6 +333,7 @@ type call struct {
 
 type runner struct {
 	fail   map[string]bool
+	onCall func(task string) // after a command has run to its end: its side effect, then a reference snapshot
 	calls  []call
 	killAt int // 1-based call index at which the process is killed; 0 = never
 	n      int
@@ -344,6 +351,9 @@ func (r *runner) Run(cmd string, _ iostream.IOStream, task string, _ []string) (
 		st = 1
 	}
 	r.calls = append(r.calls, call{task, st == 0})
+	if r.onCall != nil {
+		r.onCall(task)
+	}
 	return shell.Result{Cmd: cmd, Status: st}, nil
 }
 
@@ -421,7 +431,7 @@ func parseCrashSpec(s string) (crashSpec, bool) {
 }
 
 // invokeInProc: a fresh SpokFile, the real SpokFile.Run with a scripted Runner; kills are panics
-func invokeInProc(text, proj string, sel, req []string, force bool, cs crashSpec, fail map[string]bool) invocation {
+func invokeInProc(text, proj string, sel, req []string, force bool, cs crashSpec, fail map[string]bool, onCall func(string)) invocation {
 	inv := invocation{crash: "-"}
 	tree, err := parser.New(text).Parse()
 	if err != nil {
@@ -434,7 +444,7 @@ func invokeInProc(text, proj string, sel, req []string, force bool, cs crashSpec
 		inv.fatal = "BAD-TEMPLATE " + sup.Hx(err.Error())
 		return inv
 	}
-	rn := &runner{fail: fail, killAt: cs.killAt}
+	rn := &runner{fail: fail, killAt: cs.killAt, onCall: onCall}
 	npoints := 0
 	cache.VerifPoint = func(point, path string, contents []byte) {
 		npoints++
@@ -753,7 +763,8 @@ func workCase(c string) string {
 	}
 
 	fail := map[string]bool{}
-	digests := map[string]uint64{} // real digest -> natDigest of the inputs it was computed from
+	effects := map[string][2]string{} // task -> (file index, content code): what its command overwrites when it runs
+	digests := map[string]uint64{}    // real digest -> natDigest of the inputs it was computed from
 	var names []string
 	for _, td := range tpl.tasks {
 		names = append(names, td.name)
@@ -802,6 +813,18 @@ func workCase(c string) string {
 					_ = os.Remove(flag)
 				}
 			}
+		case "x":
+			if len(p) != 4 || binary {
+				return "BAD-CASE"
+			}
+			if f, err := strconv.Atoi(p[2]); err != nil || f < 0 || f >= len(files) {
+				return "BAD-CASE"
+			}
+			if cur, ok := effects[p[1]]; ok && cur == [2]string{p[2], p[3]} {
+				delete(effects, p[1])
+			} else {
+				effects[p[1]] = [2]string{p[2], p[3]}
+			}
 		case "r":
 			if len(p) != 4 {
 				return "BAD-CASE"
@@ -816,26 +839,48 @@ func workCase(c string) string {
 				return "BAD-CASE"
 			}
 
-			// inputs of every task now, and their real digests
-			var inp []string
-			for _, n := range names {
-				in := refInputs(proj, *tpl.def(n), binary)
-				inp = append(inp, n+"="+in.String())
-				if in.readable {
-					if d, err := hash.New().Hash(in.paths); err == nil {
-						digests[d] = in.natDigest()
+			// reference snapshots: the inputs of every task (and their real digests) before the invocation and,
+			// when commands have side effects, after every command that ran to its end
+			var snaps []map[string]inputs
+			snap := func() {
+				m := map[string]inputs{}
+				for _, n := range names {
+					in := refInputs(proj, *tpl.def(n), binary)
+					m[n] = in
+					if in.readable {
+						if d, err := hash.New().Hash(in.paths); err == nil {
+							digests[d] = in.natDigest()
+						}
 					}
 				}
+				snaps = append(snaps, m)
 			}
-			sINP = append(sINP, strings.Join(inp, ","))
+			snap()
 			sel := tpl.closure(req)
 			sSEL = append(sSEL, joinOr(sel, ","))
 
+			var onCall func(string)
+			if len(effects) > 0 {
+				onCall = func(task string) {
+					if e, ok := effects[task]; ok {
+						f, _ := strconv.Atoi(e[0])
+						path := filepath.Join(proj, files[f])
+						if st, err := os.Stat(path); err == nil && st.Mode().IsRegular() {
+							data := []byte("v" + e[1])
+							if e[1] == "3" {
+								data = nil
+							}
+							_ = os.WriteFile(path, data, 0o644)
+						}
+					}
+					snap()
+				}
+			}
 			var inv invocation
 			if binary {
 				inv = invokeBinary(sb, sel, req, force, cs, fail)
 			} else {
-				inv = invokeInProc(text, proj, sel, req, force, cs, fail)
+				inv = invokeInProc(text, proj, sel, req, force, cs, fail, onCall)
 			}
 			if inv.fatal != "" {
 				return inv.fatal
@@ -897,6 +942,30 @@ func workCase(c string) string {
 				order = fallbackOrder(inv, sel)
 			}
 			sORD = append(sORD, joinOr(order, ","))
+
+			// INP: what every task saw when its turn came = the snapshot after the commands that completed before it
+			pos := map[string]int{}
+			for i, t := range order {
+				if _, dup := pos[t]; !dup {
+					pos[t] = i
+				}
+			}
+			var inp []string
+			for _, n := range names {
+				k := 0
+				if pn, in := pos[n]; in {
+					for _, cl := range inv.calls {
+						if pc, ok := pos[cl.task]; ok && pc < pn {
+							k++
+						}
+					}
+				}
+				if k >= len(snaps) {
+					k = len(snaps) - 1
+				}
+				inp = append(inp, n+"="+snaps[k][n].String())
+			}
+			sINP = append(sINP, strings.Join(inp, ","))
 
 			// the cache file afterwards
 			data, err := os.ReadFile(filepath.Join(proj, cache.Path))
@@ -966,6 +1035,7 @@ var alpha = map[int]alphabet{
 	6: {[]string{"c", "w.0.2", "w.0.1", "w.3.1", "d.3", "f.A"}, runsOf([]string{"A", "B"})},
 	7: {[]string{"w.0.1", "d.0", "w.4.1", "d.4", "w.0.2"}, runsOf([]string{"A"})},
 	8: {[]string{"d.2", "w.2.1", "w.2.3", "w.3.3", "d.3"}, runsOf([]string{"A"})},
+	9: {[]string{"w.2.1", "w.2.2", "x.A.2.2", "x.A.2.1", "f.B"}, runsOf([]string{"B", "A"})},
 }
 
 // all histories of exactly `depth` events whose last event is a run (their prefixes are checked on the way)
@@ -1118,6 +1188,10 @@ func randomHistoriesMode(w *bufio.Writer, rng *rand.Rand, count int, maxDepth in
 			case x == 3:
 				if rng.Intn(3) == 0 {
 					ev = append(ev, "c")
+				} else if mode == "" && rng.Intn(3) == 0 {
+					// a command with a side effect on one of the files (in-process mode only)
+					f := tpl.used[rng.Intn(len(tpl.used))]
+					ev = append(ev, fmt.Sprintf("x.%s.%d.%d", tpl.tasks[rng.Intn(len(tpl.tasks))].name, f, 1+rng.Intn(3)))
 				} else {
 					ev = append(ev, "f."+tpl.tasks[rng.Intn(len(tpl.tasks))].name)
 				}
@@ -1238,6 +1312,7 @@ func gen(w *bufio.Writer, args map[string]string) {
 			exhaustive(w, 0, 4)
 			exhaustive(w, 7, 6)
 			exhaustive(w, 8, 7)
+			exhaustive(w, 9, 5)
 			if prop == "C01" {
 				crashFamily(w, 2, 2, 8, quickTears, 1)
 			}
@@ -1248,6 +1323,7 @@ func gen(w *bufio.Writer, args map[string]string) {
 			// comes to match nothing and then the same files again
 			exhaustive(w, 7, 5)
 			exhaustive(w, 8, 6)
+			exhaustive(w, 9, 4) // commands that rewrite the files a later task of the same run depends on
 			if prop == "C01" {
 				crashFamily(w, 2, 1, 8, quickTears, 2)
 			} else {
